@@ -19,6 +19,8 @@ import (
 //
 //	e2e ps=<ps> enc=<0|1> comp=<0|1> k=<k> d=<u.len.seed,...>
 //	   => B=…;U0=…;…;socks=<n>;mixed=<0|1>
+//	e2e … g=<n>   in bursts of n (see `tunnel … g=`): n datagrams back to back on the public port, then the n answers
+//	              back to back from the backend
 //
 //	e2es …  the same through a sudp tunnel: user -> real SUDPVisitor (frpc) -> frps (server/proxy/sudp.go,
 //	        visitor manager) -> frpc sudp proxy (client/proxy/sudp.go, its own Forwarder per visitor
@@ -33,9 +35,15 @@ type e2ePair struct {
 	srcUser map[int]int
 	mixed   int
 	count   int
+	hold    bool // burst mode: answers are kept until release()
+	held    []tunnelHeld
 }
 
 var e2ePairs = map[string]*e2ePair{}
+
+// pairs whose readiness probe never made the round trip: nothing gets through this frps + frpc pair.  Remembered, so
+// that every further op on the pair reports "nothing arrived" at once instead of waiting for the probe again.
+var e2eDown = map[string]bool{}
 
 func freeTCPPort() int {
 	l, err := net.Listen("tcp", "127.0.0.1:0")
@@ -58,13 +66,29 @@ func freeUDPPort() int {
 func (p *e2ePair) reset() {
 	p.mu.Lock()
 	p.bLog, p.srcUser, p.mixed, p.count = nil, map[int]int{}, 0, 0
+	p.hold, p.held = false, nil
 	p.mu.Unlock()
+}
+
+// release: the answers kept so far go out back to back
+func (p *e2ePair) release() int {
+	p.mu.Lock()
+	h := p.held
+	p.held = nil
+	p.mu.Unlock()
+	for _, x := range h {
+		_, _ = p.backend.WriteToUDP(x.reply, x.to)
+	}
+	return len(h)
 }
 
 func getPair(ps int, enc, comp, sudp bool) *e2ePair {
 	key := fmt.Sprintf("%d/%v/%v/%v", ps, enc, comp, sudp)
 	if p, ok := e2ePairs[key]; ok {
 		return p
+	}
+	if e2eDown[key] {
+		return nil
 	}
 	backend, err := net.ListenUDP("udp", &net.UDPAddr{IP: net.IPv4(127, 0, 0, 1)})
 	if err != nil {
@@ -95,8 +119,14 @@ func getPair(ps int, enc, comp, sudp bool) *e2ePair {
 				p.srcUser[from.Port] = e.u
 			}
 			p.count++
+			hold := p.hold
+			if hold {
+				p.held = append(p.held, tunnelHeld{tunnelReply(pl), from})
+			}
 			p.mu.Unlock()
-			_, _ = backend.WriteToUDP(tunnelReply(pl), from)
+			if !hold {
+				_, _ = backend.WriteToUDP(tunnelReply(pl), from)
+			}
 		}
 	}()
 
@@ -178,11 +208,24 @@ func getPair(ps int, enc, comp, sudp bool) *e2ePair {
 			return p
 		}
 	}
-	panic("e2e pair did not come up")
+	e2eDown[key] = true
+	return nil
 }
 
-func runE2E(p *e2ePair, k int, ds [][3]int) (string, bool) {
+// e2eNothing: the result of an op on a pair that carries nothing
+func e2eNothing(k int) string {
+	out := "B="
+	for i := 0; i < k; i++ {
+		out += fmt.Sprintf(";U%d=", i)
+	}
+	return out + ";socks=0;mixed=0"
+}
+
+func runE2E(p *e2ePair, k int, ds [][3]int, g int) (string, bool) {
 	p.reset()
+	p.mu.Lock()
+	p.hold = g > 0
+	p.mu.Unlock()
 	users := make([]*net.UDPConn, k)
 	uLog := make([][]tentry, k)
 	var mu sync.Mutex
@@ -212,10 +255,31 @@ func runE2E(p *e2ePair, k int, ds [][3]int) (string, bool) {
 			}
 		}(i, c)
 	}
-	for i, d := range ds {
-		_, _ = users[d[0]].Write(tunnelPayload(d[0], i, d[1], d[2]))
-		if i%8 == 7 {
-			time.Sleep(500 * time.Microsecond)
+	if g > 0 {
+		bcount := func() int { p.mu.Lock(); defer p.mu.Unlock(); return p.count }
+		ucount := func() int { mu.Lock(); defer mu.Unlock(); return got }
+		stall := 400 * time.Millisecond // once something has failed to come the verdict is settled: do not wait long again
+		for lo := 0; lo < len(ds); lo += g {
+			hi := min(lo+g, len(ds))
+			b0, u0 := bcount(), ucount()
+			for i := lo; i < hi; i++ { // the burst: back to back
+				d := ds[i]
+				_, _ = users[d[0]].Write(tunnelPayload(d[0], i, d[1], d[2]))
+			}
+			if !burstWait(bcount, b0+(hi-lo), stall) {
+				stall = 40 * time.Millisecond
+			}
+			nh := p.release() // the answers of the burst: back to back
+			if !burstWait(ucount, u0+nh, stall) {
+				stall = 40 * time.Millisecond
+			}
+		}
+	} else {
+		for i, d := range ds {
+			_, _ = users[d[0]].Write(tunnelPayload(d[0], i, d[1], d[2]))
+			if i%8 == 7 {
+				time.Sleep(500 * time.Microsecond)
+			}
 		}
 	}
 	want := 2 * len(ds)
@@ -233,7 +297,7 @@ func runE2E(p *e2ePair, k int, ds [][3]int) (string, bool) {
 		}
 		if c != last {
 			last, lastT = c, time.Now()
-		} else if time.Since(lastT) > 400*time.Millisecond {
+		} else if time.Since(lastT) > 400*time.Millisecond || (g > 0 && time.Since(lastT) > 40*time.Millisecond) {
 			break
 		}
 		time.Sleep(2 * time.Millisecond)
@@ -264,10 +328,18 @@ func e2eExec(tok []string) string {
 		f := strings.Split(e, ".")
 		ds = append(ds, [3]int{atoi(f[0]), atoi(f[1]), atoi(f[2])})
 	}
+	g := 0
+	if len(tok) > 6 {
+		g = atoi(strings.TrimPrefix(tok[6], "g="))
+	}
 	p := getPair(ps, enc, comp, tok[0] == "e2es")
-	res, missing := runE2E(p, k, ds)
-	if missing && ps <= 7605 {
-		res, _ = runE2E(p, k, ds)
+	if p == nil {
+		return e2eNothing(k)
+	}
+	res, missing := runE2E(p, k, ds, g)
+	if udpRerunWorthIt(missing) && ps <= 7605 {
+		res, missing = runE2E(p, k, ds, g)
+		udpRerunDone(missing)
 	}
 	return res
 }
